@@ -29,8 +29,21 @@ def renumber(methods):
     return out
 
 
+def canon_term(t):
+    """Union / intersection members in any order are one annotation (C15): two methods that differ only
+    there have identical signatures, and their relative registration order is meaningful."""
+    if isinstance(t, dict):
+        t = {k: canon_term(v) for k, v in t.items()}
+        if t.get("k") in ("union", "inter"):
+            t["args"] = sorted(t["args"], key=lambda a: json.dumps(a, sort_keys=True))
+        return t
+    if isinstance(t, list):
+        return [canon_term(x) for x in t]
+    return t
+
+
 def sig_key(m):
-    return json.dumps([m["pos"], m["reqpos"], m["kwn"], m["kwt"], m["kwreq"], m["prio"]], sort_keys=True)
+    return json.dumps([canon_term(m["pos"]), m["reqpos"], m["kwn"], canon_term(m["kwt"]), m["kwreq"], m["prio"]], sort_keys=True)
 
 
 def permute_distinct(rng, methods):
@@ -132,6 +145,72 @@ def gen_jobs(tier, seed):
     return jobs
 
 
+def gen_dep_jobs(tier, seed):
+    """The same contexts over value worlds (Dependent / Literal annotations): the per-rank value
+    dispatcher is generated from a list of handlers whose order and number depend on the context."""
+    from .. import deprt
+    from . import c10
+
+    rng = random.Random(seed * 7561 + 66)
+    thorough = tier == "thorough"
+    src = c10.gen_jobs(tier, seed + 1000)
+    src = [j for j in src if c10.judged_ok(j["methods"])]
+    rng.shuffle(src)
+    src = src[: (110 if not thorough else 2500)]
+    ints = ["im1", "i0", "i1", "i2", "i3", "i4", "i5"]
+    # keyed groups of 3 .. 5 disjoint literals, some with a second value condition (table strategy from 4 up)
+    for q in range(40 if not thorough else 800):
+        rng.shuffle(ints)
+        nk = rng.choice([3, 3, 4, 5])
+        methods = []
+        for j in range(nk):
+            twodep = rng.random() < 0.4
+            second = c10.rand_dep(rng, 2) if twodep else c10.cls(rng.choice([1, 2]))
+            third = c10.cls(1) if twodep else c10.cls(rng.choice([1, 2]))
+            methods.append({"id": f"m{j + 1}", "prio": 0, "reg": j + 1,
+                            "pos": [{"k": "lit", "bound": c10.cls(2), "vals": [deprt.arg_record(ints[j])["v"]]}, second, third],
+                            "reqpos": 3, "kwn": [], "kwt": [], "kwreq": [], "body": "leaf"})
+        methods.append({"id": "m9", "prio": 0, "reg": 9, "pos": [c10.cls(1), c10.cls(1), c10.cls(1)], "reqpos": 3, "kwn": [], "kwt": [], "kwreq": [], "body": "leaf"})
+        src.append({"id": f"k{q}", "methods": methods, "calls": [[a, b, "i1"] for a in ints[:nk] for b in ("i0", "i2", "i5", "im1")], "keyed": True})
+    jobs = []
+    for j in src:
+        calls = [c for c in j["calls"] if isinstance(c, list)]
+        if not calls:
+            continue
+        rng.shuffle(calls)
+        npos = len(j["methods"][0]["pos"])
+        for call in calls[: (2 if not thorough else 4)]:
+            base = renumber(j["methods"])
+            ctxs = [{"name": "base", "methods": base}, {"name": "again", "methods": base, "again": True}]
+            for mode in ["sorted", "reverse", "shuffle:1", "shuffle:2", "rotate:1"] + (["shuffle:3", "rotate:2"] if thorough else []):
+                ctxs.append({"name": "order." + mode.replace(":", ""), "methods": base, "order": mode})
+            for k in range(2 if not thorough else 4):
+                ctxs.append({"name": f"regperm{k}", "methods": permute_distinct(rng, base)})
+            # extras that are not applicable to the values: a literal on other values of the first argument's class,
+            # or a condition that rejects it; the other positions copy an existing method (same rank)
+            a0 = deprt.arg_record(call[0])
+            same_cls = [n for n, c, _ in deprt.VALUES if c == a0["c"] and n != call[0]]
+            extras = []
+            for x in range(3):
+                tmpl = rng.choice(base)
+                if a0["c"] in (2, 3) and same_cls and rng.random() < 0.7:
+                    vals = rng.sample(same_cls, min(len(same_cls), rng.randint(1, 2)))
+                    first = {"k": "lit", "bound": c10.cls(a0["c"]), "vals": sorted((deprt.arg_record(v)["v"] for v in vals), key=lambda t: str(t["v"]))}
+                else:
+                    first = {"k": "dep", "bound": c10.cls(rng.choice(sorted(c10.ANC[a0["c"]]))), "holds": sorted(rng.sample(same_cls, min(len(same_cls), 2)))}
+                pos = [first] + [copy.deepcopy(t) for t in tmpl["pos"][1:]]
+                extras.append({"id": f"x{x + 1}", "prio": rng.choice([0, 0, 1]), "reg": 0, "pos": pos, "reqpos": npos,
+                               "kwn": [], "kwt": [], "kwreq": [], "body": "leaf"})
+            for n_ex in (1, 2, 3):
+                ms = list(base)
+                for x in extras[:n_ex]:
+                    ms.insert(rng.randint(0, len(ms)), x)
+                ctxs.append({"name": f"extra.value{n_ex}", "methods": renumber(ms)})
+                ctxs.append({"name": f"extra.value{n_ex}.rev", "methods": renumber(ms), "order": "reverse"})
+            jobs.append({"id": f"C06-d{len(jobs)}", "props": ["C06"], "call": call, "contexts": ctxs})
+    return jobs
+
+
 def run(prop, tier, seed, replay=None):
     rep = Report(prop, tier, seed)
     rep.assumptions = [
@@ -170,6 +249,13 @@ def run(prop, tier, seed, replay=None):
                     st = dict(st)
                     st["ctx"] = f"hashseed{hs}." + st["ctx"]
                     merged[c["id"]]["steps"].append(st)
+    dres = pool.run(workers.dep_context_cases, gen_dep_jobs(tier, seed))
+    for c in dres:
+        if "skip" in c:
+            skipped += 1
+        else:
+            merged[c["id"]] = c
+    rep.extra["value_world_cases"] = len([c for c in dres if "skip" not in c])
     cases = list(merged.values())
     verdicts = {}
     B = 1500
